@@ -1,4 +1,5 @@
 import Liquid.Std
+import Proofs.MapPermSort
 /-!
 # C02 — rendering is deterministic across runs, re-parses, engines and entry points
 
@@ -12,7 +13,8 @@ enters the real code — the iteration order of a Go map — and the six API ent
 
 `reflect.Value.MapKeys` returns the keys in an arbitrary order. The repaired code sorts them
 (`values.SortedMapKeys`) before iterating or converting to an array. Sorting makes the result
-independent of that arbitrary order: -/
+independent of that arbitrary order (here for string keys; `Proofs/MapOrder.lean` for booleans, numbers
+of every type and strings, with the comparator of `values/sort.go` itself): -/
 
 /-- Sorting with a transitive, total order that is antisymmetric on the elements present gives the
     same list for every permutation of the input. -/
@@ -54,9 +56,10 @@ theorem map_order_independent (kvs kvs' : List (Bytes × GoVal)) (hperm : kvs.Pe
     simp only [entryLe, decide_eq_true_eq] at hab hba
     exact hdistinct a b ha hb (List.le_antisymm hab hba)
 
-/-- a list that is already in key order is visited as it is (the line protocol keeps map entries
-    in this canonical order, so the model's `loopItems` on a map is `sortedEntries` of any
-    permutation of it) -/
+/-- a list that is already in key order is left as it is. (This section is the earlier statement for
+    string keys and `mergeSort`; the model's `loopItems` and `Convert` now call `MapOrder.sortedEntries`,
+    the transcription of `values.SortedMapKeys` for keys of every kind: `Proofs/MapOrder.lean` and the
+    last sections of this file.) -/
 theorem sortedEntries_of_sorted (kvs : List (Bytes × GoVal)) (h : kvs.Pairwise (fun a b => entryLe a b = true)) :
     sortedEntries kvs = kvs := List.mergeSort_of_pairwise h
 
@@ -100,3 +103,144 @@ example : sortedEntries [([98], .nil), ([97], .bool true)] = sortedEntries [([97
     intro a b ha hb h
     simp only [List.mem_cons, List.mem_nil_iff, or_false] at ha hb
     rcases ha with rfl | rfl <;> rcases hb with rfl | rfl <;> simp_all)
+
+
+/-! ## The whole render does not depend on the order of map entries
+
+`MP a b` (`Proofs/MapPerm.lean`, defined inductively on `GoVal`): `b` is `a` with the entry lists of maps
+permuted, at any depth — for maps whose keys are booleans, numbers or strings, pairwise distinct as Go
+map keys (`MapOrder.KeysOK`: what the keys of one Go map of these kinds always are). The model's `run`
+gets every map as a *list* of entries, in the order of the line protocol, and sorts it wherever the code
+calls `values.SortedMapKeys` (`Liquid/MapOrder.lean`); Go's runtime hands the entries out in a random
+order. The theorems say that this order cannot reach the result. -/
+
+/-- **C02, whole template, parametric in the value layer.** For every comparison/filter layer `P` and
+output layer `O` that do not see the order of map entries (`PrimsRespectM`, `OutRespectM`: related
+operands compare alike, related filter inputs give related results, related values print alike), every
+configuration, file system, include depth, template source and start line: rendering against two
+environments whose bindings differ in the order of the entries of maps, at any depth (`MP`), gives the
+same result — the same output bytes or the same error. Proved by the mutual induction over the compiled
+tree on the two runs in lock step (`mp_renderNode`, `Proofs/MapPermRender.lean`): variable, property and
+index lookup find the same entry (`mapFind_mp`: keys are distinct), `for`/`tablerow` visit the entries in
+the order of `SortedMapKeys` (`loopItems_mp_cases`, by `sortedEntries_perm`), assign/capture/loop
+variables stay related, includes see related variables. -/
+theorem run_map_order_independent (P : Prims) (O : OutPrims) (hP : PrimsRespectM false P) (hO : OutRespectM false O)
+    (cfg : Cfg) (fs : FS) (fuel : Nat) (src : Bytes) (line : Nat) (env env' : Env)
+    (he : ∀ x, MP (env.get x) (env'.get x)) :
+    run P O cfg fs fuel src line env = run P O cfg fs fuel src line env' :=
+  (run_mp P O cfg fs fuel hP hO src line he).eq
+
+/-- The same up to the boundary of the model (`RunAgree true`: equal, or one of the two runs is
+`unmodelled`): the layers need to respect `MP` only up to `unmodelled` results. -/
+theorem run_map_order_independent_upto_unmodelled (P : Prims) (O : OutPrims) (hP : PrimsRespectM true P)
+    (hO : OutRespectM true O) (cfg : Cfg) (fs : FS) (fuel : Nat) (src : Bytes) (line : Nat) (env env' : Env)
+    (he : ∀ x, MP (env.get x) (env'.get x)) :
+    RunAgree true (run P O cfg fs fuel src line env) (run P O cfg fs fuel src line env') :=
+  run_mp P O cfg fs fuel hP hO src line he
+
+/-- a map binding with its entries permuted is a related binding -/
+theorem binding_related_of_perm (kt vt : Ty) {kvs kvs' : List (GoVal × GoVal)} (hv : vt ≠ .priv)
+    (hk : MapOrder.KeysOK kvs) (ht : KeysTyped kt kvs) (hn : NoPriv kvs) (hp : kvs.Perm kvs') :
+    MP (.map kt vt kvs) (.map kt vt kvs') :=
+  MP.map kt vt hv hk hn (MPV.refl _) hp ht
+
+/-- … at any depth: an array of such maps -/
+theorem binding_related_nested (t : Ty) {x y : GoVal} (h : MP x y) (xs : List GoVal) : MP (.slice t (x :: xs)) (.slice t (y :: xs)) :=
+  MP.slice t (.cons h (MPL.refl xs))
+
+/-! Non-vacuity: the map with the keys `1`, `1.0`, `int64(1)`, `"1"`, `true` in two orders, bound to `m`;
+layers that satisfy the hypotheses. -/
+
+example : MP (.map .any .any MapOrder.exA) (.map .any .any MapOrder.exB) :=
+  binding_related_of_perm .any .any (by simp) MapOrder.exA_keysOK (fun _ _ => rfl)
+    (by intro kv h; simp only [MapOrder.exA, List.mem_cons, List.mem_nil_iff, or_false] at h
+        rcases h with rfl | rfl | rfl | rfl | rfl <;> rfl)
+    MapOrder.exB_perm_exA.symm
+
+example : ∀ y, MP (Env.get [([109], .map .any .any MapOrder.exA)] y) (Env.get [([109], .map .any .any MapOrder.exB)] y) := by
+  intro y
+  by_cases h : y = [109]
+  · subst h
+    exact binding_related_of_perm .any .any (by simp) MapOrder.exA_keysOK (fun _ _ => rfl)
+      (by intro kv h; simp only [MapOrder.exA, List.mem_cons, List.mem_nil_iff, or_false] at h
+          rcases h with rfl | rfl | rfl | rfl | rfl <;> rfl)
+      MapOrder.exB_perm_exA.symm
+  · have : ([109] == y) = false := by simp [Ne.symm h]
+    simp [Env.get, List.find?, this, MP.refl]
+
+example : PrimsRespectM false
+    { equal := fun _ _ => .ok true, less := fun _ _ => .ok false, contains := fun _ _ => .ok false,
+      equalFn := fun _ _ => .ok true, applyFilter := fun _ r _ => .ok r, hasFilter := fun _ => true } :=
+  { equal := fun _ _ _ _ _ _ => rfl, less := fun _ _ _ _ _ _ => rfl, contains := fun _ _ _ _ _ _ => rfl,
+    equalFn := fun _ _ _ _ _ _ => rfl, applyFilter := fun _ _ _ _ _ hr _ => hr.2.2 }
+
+example : OutRespectM false { chunks := fun _ => .ok [] } := { chunks := fun _ _ _ => rfl }
+
+/-- the standard output layer satisfies its hypothesis (up to `unmodelled`) -/
+example : OutRespectM true stdOut := stdOut_respectsM
+
+
+/-! ## The standard configuration
+
+The standard output layer (`stdOut_respectsM`: `fmt.Sprint` sorts the keys of a map), the standard
+comparisons (`opEq_prep_mp`, `opLt_prep_mp`, `opContains_prep_mp`, `equal_mp`: `equalMaps` is a conjunction
+over all entries, `mapValue.Contains` a key lookup) and every standard filter (`filterRespectsM_all`:
+`Convert(·, []any)` of a map sorts the entries, `Convert(·, string)` prints them sorted; `json`/`inspect` sort
+the members of an object by key text — `marshal_jrel`; `type` names types; `sort`/`sort_natural` order by
+`values.Less` / the printed text and make the same comparisons on both runs — `insertionSortM_mp`,
+`mergeSort_mp`; `uniq` identifies elements by their canonical encoding — `canonOrder_mp`) respect `MP` up to
+`unmodelled`: the entries of a map are *printed* and *compared* in the order of the entry list, so which part
+of a value leaves the model first — and with an early exit, whether it is reached at all — depends on that
+order; the answers inside the model are the same. -/
+
+/-- **C02 for the standard configuration: rendering does not depend on the order of map entries anywhere in
+the bindings.** Every template (all tags, all 48 filters, every comparison), every configuration, file system
+and include depth: rendering against environments whose bindings differ in the order of the entries of maps, at
+any depth (`MP`: maps whose keys are booleans, numbers or strings, pairwise distinct and of the map's key type),
+gives results that agree (`RunAgree true`: the same output or the same error, or one of the two runs is outside
+the model). "Agree" rather than "equal" is forced by the model, not by the code: see the paragraph above — the
+statement for equal results holds for every value layer that respects `MP` exactly
+(`run_map_order_independent`). -/
+theorem run_std_map_order_independent (cfg : Cfg) (fs : FS) (fuel : Nat) (src : Bytes) (line : Nat) (env env' : Env)
+    (he : ∀ x, MP (env.get x) (env'.get x)) :
+    RunAgree true (run stdPrims stdOut cfg fs fuel src line env) (run stdPrims stdOut cfg fs fuel src line env') :=
+  run_mp _ _ cfg fs fuel stdPrims_respectsM stdOut_respectsM src line he
+
+/-- the same for an engine on which only some of the standard filters are registered -/
+theorem run_std_map_order_independent_only (allowed : Bytes → Bool)
+    (cfg : Cfg) (fs : FS) (fuel : Nat) (src : Bytes) (line : Nat) (env env' : Env)
+    (he : ∀ x, MP (env.get x) (env'.get x)) :
+    RunAgree true (run (stdPrimsOnly allowed) stdOut cfg fs fuel src line env)
+      (run (stdPrimsOnly allowed) stdOut cfg fs fuel src line env') :=
+  run_mp _ _ cfg fs fuel (stdPrimsOnly_respectsM allowed (fun n _ _ => filterRespectsM_all n)) stdOut_respectsM src line he
+
+/-- the hypothesis on the environments, on the map with the keys `1`, `1.0`, `int64(1)`, `"1"`, `true` nested in an
+    array, bound to `a`, in two orders -/
+example : ∀ y, MP (Env.get [([97], .slice .any [.map .any .any MapOrder.exA, .int .int 7])] y)
+    (Env.get [([97], .slice .any [.map .any .any MapOrder.exB, .int .int 7])] y) := by
+  intro y
+  by_cases h : y = [97]
+  · subst h
+    refine binding_related_nested .any ?_ _
+    exact binding_related_of_perm .any .any (by simp) MapOrder.exA_keysOK (fun _ _ => rfl)
+      (by intro kv h; simp only [MapOrder.exA, List.mem_cons, List.mem_nil_iff, or_false] at h
+          rcases h with rfl | rfl | rfl | rfl | rfl <;> rfl)
+      MapOrder.exB_perm_exA.symm
+  · have : ([97] == y) = false := by simp [Ne.symm h]
+    simp [Env.get, List.find?, this, MP.refl]
+
+/-- … and the conclusion on it: the template `{% for p in m %}{{ p[1] }}{% endfor %}{{ m | json }}` (any template)
+    renders alike against the two orders of the map -/
+example (src : Bytes) :
+    RunAgree true (run stdPrims stdOut {} (fsOfList []) 8 src 0 [([109], .map .any .any MapOrder.exA)])
+      (run stdPrims stdOut {} (fsOfList []) 8 src 0 [([109], .map .any .any MapOrder.exB)]) :=
+  run_std_map_order_independent _ _ _ _ _ _ _ (by
+    intro y
+    by_cases h : y = [109]
+    · subst h
+      exact binding_related_of_perm .any .any (by simp) MapOrder.exA_keysOK (fun _ _ => rfl)
+        (by intro kv h; simp only [MapOrder.exA, List.mem_cons, List.mem_nil_iff, or_false] at h
+            rcases h with rfl | rfl | rfl | rfl | rfl <;> rfl)
+        MapOrder.exB_perm_exA.symm
+    · have : ([109] == y) = false := by simp [Ne.symm h]
+      simp [Env.get, List.find?, this, MP.refl])
